@@ -154,7 +154,6 @@ func (j *cacheJanitor[MetadataT]) cleanExpiredEntries() {
 	}
 
 	endCacheSize := j.cacheFns.getCacheSize()
-	metrics.Global.Cache.BytesCached.Set(endCacheSize)
 	metrics.Global.Cache.BytesCleaned.Add(startCacheSize - endCacheSize)
 
 	slog.Info("Cache cleanup complete", "new_size", endCacheSize)
@@ -221,7 +220,6 @@ func (j *cacheJanitor[MetadataT]) evict(maxCacheBytes int64) {
 	}
 
 	endCacheSize := j.cacheFns.getCacheSize()
-	metrics.Global.Cache.BytesCached.Set(endCacheSize)
 	metrics.Global.Cache.BytesCleaned.Add(startCacheSize - endCacheSize)
 
 	slog.Info("Cache eviction complete", "evicted_entries", evictions, "new_size", endCacheSize)
